@@ -71,6 +71,76 @@ def _loop_syms(v):
     return out
 
 
+def _owner_loop_idiom(fb, ob):
+    """for idx in (0..toks.len()).rev() { match toks[idx] { `)` => cnt -= 1, `(` => cnt += 1, Op if cnt == 1 => return Some(idx), _ => () } } None"""
+    allp = Interp(fb, _P()).run(ob, [Sym("toks")])
+    if any(p.status not in ("return", "loop-pruned", "unreachable") for p in allp):
+        return False, "shape"
+    it = cnt = None
+    for p in allp:
+        for t in loops.trips(p, ob["path"], 0):
+            if t.general:
+                continue
+            for k, v in t.pre.items():
+                sv = rel.cstr(v)
+                if re.match(r"^(std::iter::IntoIterator::into_iter\()?std::iter::Iterator::rev\(Range\{start: 0_usize, end: core::slice::<impl \[T\]>::len\(toks\)\}\)\)?$", sv):
+                    it = k
+                elif rel.const_int(v) == 0 and isinstance(v, Const) and (v.ty or "").startswith("i"):
+                    cnt = k
+    if it is None or cnt is None:
+        return False, "no loop over the reversed index range with a counter starting at 0"
+    seen = set()
+    for p in allp:
+        for t in loops.trips(p, ob["path"], 0):
+            if not t.general or it not in t.pre or cnt not in t.pre:
+                continue
+            item = ".0(as:Some(std::iter::Iterator::next(%s)))" % rel.cstr(t.pre[it])
+            tok = "index(toks, %s)" % item
+            C = rel.cstr(t.pre[cnt])
+            kind = sub = None
+            eq1 = None
+            for d in t.decisions:
+                sd = rel.cstr(d[1])
+                if sd == "discr(std::iter::Iterator::next(%s))" % rel.cstr(t.pre[it]):
+                    if d[2] == "None":
+                        kind = "exit"
+                elif sd == "discr(%s)" % tok:
+                    kind = d[2]
+                elif sd == "discr(.0(as:Paren(%s)))" % tok:
+                    sub = d[2]
+                elif sd in ("binop:Eq(%s, 1_i32)" % C, "binop:Eq(1_i32, %s)" % C):
+                    eq1 = bool(d[2])
+                else:
+                    return False, "a step of the scan depends on %s" % sd[:100]
+            if kind == "exit":
+                if not (p.status == "return" and t.post is None and rel.cstr(p.result) == "Option::None"):
+                    return False, "the exhausted scan does not return None"
+                seen.add("none")
+                continue
+            if t.post is None:
+                # leaves the loop: only with the operator found at count 1
+                if kind == "Op" and eq1 is True and p.status == "return" and rel.cstr(p.result) == "Option::Some{0: %s}" % item:
+                    seen.add("found")
+                    continue
+                return False, "the scan is left on a %s token (count == 1: %s) with %s" % (kind, eq1, rel.cstr(p.result)[:60] if p.result is not None else p.status)
+            post = rel.cstr(t.post[cnt])
+            if kind == "Paren" and sub == "Open":
+                want, tag = ("binop:Add(%s, 1_i32)" % C,), "open"
+            elif kind == "Paren" and sub == "Close":
+                want, tag = ("binop:Sub(%s, 1_i32)" % C, "binop:Add(%s, -1_i32)" % C), "close"
+            else:
+                want, tag = (C,), "other"
+                if kind == "Op" and eq1 is not False:
+                    return False, "an operator token at count 1 does not end the scan"
+            if post not in want:
+                return False, "a %s token changes the running count to %s" % (tag if tag != "other" else kind, post[:60])
+            seen.add(tag)
+    missing = {"open", "close", "found", "none"} - seen
+    if missing:
+        return False, "cases not found: %s" % sorted(missing)
+    return True, ""
+
+
 def run(ctx):
     chk, fb = ctx.check, ctx.fb
     chk.rule("R08.1", "comma step: owner token replaced by `(`; `)`, the owner, `(` appended in this order")
@@ -391,6 +461,12 @@ def run(ctx):
                     if not (op_ok and rest_ok):
                         good = False
                         why = "predicate verdicts %s" % {k: v[:2] for k, v in verdicts.items()}
+    if not good:
+        g2, why2 = _owner_loop_idiom(fb, ob)
+        if g2:
+            good = True
+        elif why2:
+            why = "%s; as an explicit loop: %s" % (why, why2)
     if good:
         chk.ok("R08.6", "owner search: first operator at running paren count 1, scanning backwards", "", loc(ob["span"]))
     else:
